@@ -230,7 +230,8 @@ def build(repo):
                          'caller box:: notnan(G.ulo) and notnan(G.uhi) and G.ulo <= G.uhi',
                          'starting point of the run lies in the box:: inbox(x0)', 'scal_ok(scaling_changes)',
                          'without projections the model bounds are the box:: implies(not projections, xl == G.lo and xu == G.hi)',
-                         'with projections the bound box is projected last:: implies(projections, last_in_box(projections, G.lo, G.hi))',
+                         ('with projections the bound box is projected last:: implies(projections, last_in_box(projections, G.lo, G.hi))', 'C01', 'C09'),
+                         ('the box kept by the run is the caller\'s box (one-sided and missing bounds included: the documented +-1e20 stand-ins):: scal_ok(scaling_changes)', 'C01', 'C09'),
                          ('with projections the starting point has been replaced by its projection:: implies(projections and G.first and fp(-1e20) <= G.ulo and G.uhi <= fp(1e20), ISDYK(x0))', 'C09'),
                          'A-nan:: finite(x0) and notnan(xl) and notnan(xu)', 'xl <= xu'],
                modifies=['params[*]'], result=('fp',) + ('unk',) * 11,
